@@ -354,3 +354,15 @@ func (c *Ctx) Violations() []*Violation {
 
 // Classes returns the outcome classes counted so far.
 func (c *Ctx) Classes() map[string]int64 { return c.classes }
+
+// Depth is the depth of the state or transition currently being examined.
+func (c *Ctx) Depth() int {
+	d := 0
+	if c.node != nil {
+		d = c.node.depth
+	}
+	if c.act != nil {
+		d++
+	}
+	return d
+}
